@@ -230,6 +230,17 @@ def coq_properties(ctx, pid=None, extra_targets=()):
     ctx.cov.setdefault('theorems', []).extend(names)
     ctx.cov.setdefault('print_assumptions', {})[pid] = {'closed_under_global_context': closed, 'axioms': ax_names}
     ctx.cov['coq_wall_s'] = round(time.time() - t, 1)
+    if ok and ctx.tier == 'thorough' and os.environ.get('VERIF_NO_COQCHK') != '1':
+        # independent re-check of the compiled property file and everything it depends on (thorough tier only: 1-3 min)
+        t1 = time.time()
+        rc3, o3, e3 = sh(['coqchk', '-o', '-silent', '-Q', os.path.join(VERIF, 'coq'), 'Gst', 'Gst.%s.Properties' % pid],
+                         cwd=os.path.join(VERIF, 'coq'), timeout=1500)
+        txt = o3 + e3
+        m = re.search(r'\* Axioms:(.*?)(?:\n\s*\n|\* |\Z)', txt, re.S)
+        ctx.cov['coqchk'] = {'exit': rc3, 'wall_s': round(time.time() - t1, 1),
+                             'axioms': (m.group(1).strip()[:1500] if m else txt.strip()[-600:])}
+        if rc3 != 0:
+            ok = False; ctx.proof_errors = ['coqchk rejected Gst.%s.Properties: %s' % (pid, txt[-300:])]
     if ok:
         ctx.cov['discharged'] += len(names)
         # complete axiom report: Print Assumptions for EVERY obligation (the property file prints it for its main theorems only)
